@@ -64,6 +64,10 @@ def main():
             except Exception as e:
                 files = {"<raised>": type(e).__name__}
             print(json.dumps({"g": op["g"], "s": s, "mode": op["mode"], "files": files}))
+            # a tool that regenerates on every edit lets go of the previous tree before it parses the next one
+            tree = r = res = gen = None
+            import gc
+            gc.collect()
 
 
 if __name__ == "__main__":
